@@ -219,10 +219,14 @@ func (m *monitor) hook(v *sim.View, ev *sim.Event) {
 	// the XRD's finalizers are removed only after the CRD is gone or was never ours
 	if ev.Key == xrdKey && ev.Before != nil {
 		for fin, crdKey := range map[string]sim.Key{finDefined: xrCRD, finOffered: clCRD} {
-			if hasFin(ev.Before, fin) && (ev.After == nil || !hasFin(ev.After, fin)) && (ev.Actor == "definition" || ev.Actor == "offered") {
+			if hasFin(ev.Before, fin) && (ev.After == nil || !hasFin(ev.After, fin)) && (ev.Actor == "definition" || ev.Actor == "offered" || ev.Actor == "pkgrev") {
 				m.order = append(m.order, "xrd-finalizer-removed:"+fin)
 				if crd := v.Get(crdKey); crd != nil && controlledBy(crd, sim.Str(ev.Before, "metadata", "uid")) {
-					m.add("xrd-finalized-before-crd-gone:"+fin, fmt.Sprintf("%s: finalizer %s removed while CRD %s still exists and is controlled by the XRD", ev.Short(), fin, crdKey.Name))
+					key := "xrd-finalized-before-crd-gone:" + fin
+					if ev.Actor == "pkgrev" {
+						key += ":by-package-establisher" // another Crossplane controller took the finalizer away
+					}
+					m.add(key, fmt.Sprintf("%s: finalizer %s removed while CRD %s still exists and is controlled by the XRD", ev.Short(), fin, crdKey.Name))
 				}
 			}
 		}
@@ -1442,6 +1446,65 @@ func runRestartDuringTeardown(c *kit.Ctx) {
 // crossplane.io/paused annotation, so its own controller does not finalize it. The teardown has
 // to wait for it like for any other instance: controller stop and CRD deletion only after every
 // instance is gone. Later the user un-pauses it and the teardown completes.
+// runEstablishedXRD is part K: the XRD belongs to a Configuration package; its active revision
+// establishes it again (as it does on every reconcile) with the REAL establisher - once while the
+// XRD lives, once after the user deleted it and it waits, Terminating, for its instances. Whoever
+// writes the XRD: its finalizers go only after its CRDs are gone.
+func runEstablishedXRD(c *kit.Ctx) {
+	for i, when := range []string{"live", "terminating", "live", "terminating"} {
+		ssa := i >= 2
+		name := fmt.Sprintf("established-xrd/%s/ssa=%v", when, ssa)
+		if !c.Want(name) {
+			continue
+		}
+		e := newEnv(uint64(c.Seed)*233+uint64(i), ssa)
+		w := e.w
+		w.MustSeed("pkgmgr", map[string]any{"apiVersion": "pkg.crossplane.io/v1", "kind": "Configuration", "metadata": map[string]any{"name": "cfg"}, "spec": map[string]any{"package": "xpkg.example.org/acme/cfg:v1"}})
+		cfg := w.GetObj(sim.Key{Group: "pkg.crossplane.io", Kind: "Configuration", Name: "cfg"})
+		w.MustSeed("pkgmgr", map[string]any{"apiVersion": "pkg.crossplane.io/v1", "kind": "ConfigurationRevision",
+			"metadata": map[string]any{"name": "cfg-rev1", "labels": map[string]any{"pkg.crossplane.io/package": "cfg"},
+				"ownerReferences": []any{map[string]any{"apiVersion": "pkg.crossplane.io/v1", "kind": "Configuration", "name": "cfg", "uid": sim.Str(cfg, "metadata", "uid"), "controller": true, "blockOwnerDeletion": true}}},
+			"spec": map[string]any{"image": "xpkg.example.org/acme/cfg:v1", "desiredState": "Active", "revision": int64(1)}})
+		w.MustSeed("user", xrk.ClaimObject("ex.org/v1", "Thing", "ns1", "c0", map[string]any{"compositionRef": map[string]any{"name": "comp"}}))
+		e.settle(4)
+		pc := w.Client("pkgrev")
+		est := revision.NewAPIEstablisher(pc, "crossplane-system", 1)
+		rev := &pkgv1.ConfigurationRevision{}
+		if err := pc.Get(ctx, types.NamespacedName{Name: "cfg-rev1"}, rev); err != nil {
+			panic(err)
+		}
+		rev.SetGroupVersionKind(pkgv1.ConfigurationRevisionGroupVersionKind)
+		manifest := func() []runtime.Object {
+			return []runtime.Object{xrk.XRDTyped(xrk.XRDObject(xrk.XRDOpts{Group: "ex.org", Kind: "XThing", Plural: "xthings", ClaimKind: "Thing", ClaimPlural: "things"}))}
+		}
+		// first establishment: the revision takes the XRD over (it had no controller)
+		if _, err := est.Establish(ctx, manifest(), rev, true); err != nil {
+			c.Violate("harness:establish-failed", name, err.Error(), nil)
+			continue
+		}
+		e.settle(3)
+		m := newMonitor()
+		m.running[ctlComposite] = e.defEng.IsRunning(ctlComposite)
+		m.running[ctlClaim] = e.offEng.IsRunning(ctlClaim)
+		w.AddHook(m.hook)
+		from := w.LogLen()
+		if when == "terminating" {
+			if err := w.Client("user").Delete(ctx, &unstructured.Unstructured{Object: w.GetObj(xrdKey)}); err != nil {
+				panic(err)
+			}
+		}
+		_, eerr := est.Establish(ctx, manifest(), rev, true)
+		stillThere := w.GetObj(xrdKey) != nil
+		e.settle(6)
+		c.Eval(name, true)
+		c.Count("established_xrd_cases", 1)
+		c.Count("monitor_evaluations", int64(m.checks))
+		for k, key := range m.keys {
+			c.Violate(key+":established-xrd", name, m.whats[k], map[string]any{"when": when, "establish_error": fmt.Sprint(eerr), "xrd_exists_after_establish": stillThere, "order": m.order, "trace": shortTrace(w, from, 40)})
+		}
+	}
+}
+
 func runPausedTeardown(c *kit.Ctx) {
 	for i, what := range []string{"claim", "xr", "claim", "xr"} {
 		ssa := i >= 2
@@ -1538,6 +1601,7 @@ func main() {
 	c.Rule += " " + "Lock entries in the forms older versions wrote (type only, apiVersion+kind, Function as v1beta1)."
 	c.Rule += " " + "(1b) the deleted revision's controller reads the Lock through a cache that is behind another writer for 1-3 reconciles."
 	c.Rule += " " + "Part G: referenceable version bump, then claim deletion. Part H: Crossplane restarts during an XRD teardown held up by a third-party finalizer."
+	c.Rule += " " + "Part K: the XRD is established again by its package's active revision (real establisher) while it lives and while it waits, Terminating, for its instances; its finalizers go only after its CRDs."
 	c.Rule += " " + "Part J: one or two claim reconciles behind an XR cache that has not seen the claim's XR, then deletion - every XR bound to the claim (not only the referenced one) precedes the finalizer. Revision-lock worlds in which another locked package depends on the deleted revision's package."
 	c.Assumptions = []string{"a stopped controller reconciles nothing; a running one reconciles every instance when scheduled", "part C: fake informers stand in for client-go shared informers (handler registrations, RemoveEventHandler errors); part D: the Usage is composed by label only, no XR reconciler runs"}
 	c.Floor = 100
@@ -1569,6 +1633,9 @@ func main() {
 	}
 	if err := kit.Try(func() { runClaimDeletionFaults(c) }); err != nil {
 		c.Violate("panic:claim-deletion-faults", "claim-deletion-fault", err.Error(), nil)
+	}
+	if err := kit.Try(func() { runEstablishedXRD(c) }); err != nil {
+		c.Violate("panic:established-xrd", "established-xrd", err.Error(), nil)
 	}
 	if err := kit.Try(func() { runPausedTeardown(c) }); err != nil {
 		c.Violate("panic:paused-teardown", "paused-teardown", err.Error(), nil)
